@@ -1,6 +1,6 @@
 (* Wire glue for C06 (ops 6xx): universal value -> reader / chunk-list model and record spec.
    Evaluated both by vm_compute (cases.v) and by the extracted OCaml driver. *)
-From Fzf Require Import Prelude Val RecordSpec ReaderModel ChunkModel.
+From Fzf Require Import Prelude Val RecordSpec ReaderModel ChunkModel InputModel.
 Open Scope Z_scope.
 
 Definition as_nats (v : val) : list nat := map as_nat (as_list v).
@@ -50,6 +50,40 @@ Definition d_searchable (a : val) : val :=
 Definition d_keep_tail (a : val) : val :=
   VL (map VI (keep_tail (as_nat (arg a 0)) (map as_int (as_list (arg a 1))))).
 
+(* 607 model: [bufsz, slabsz, chunk_size, read0, sort, tac, sync, hl, tail, stream, cuts] -> [header, [[index, text]...]]
+   (--filter '' through whichever path core.go takes) *)
+Definition d_filter_run (a : val) : val :=
+  match filter_run (as_nat (arg a 0)) (as_nat (arg a 1)) (as_nat (arg a 2))
+                   (mkF (as_bool (arg a 3)) (as_bool (arg a 4)) (as_bool (arg a 5)) (as_bool (arg a 6))
+                        (as_nat (arg a 7)) (as_nat (arg a 8)))
+                   (as_str (arg a 9)) (as_nats (arg a 10)) with
+  | Ok (h, its) => VL [vstrs h; VL (map vitem its)]
+  | Err _ => verr
+  end.
+
+(* 608 spec: [read0, tac, hl, tail, stream] -> [header, listing] *)
+Definition d_filter_listing (a : val) : val :=
+  let read0 := as_bool (arg a 0) in
+  let hl := as_nat (arg a 2) in
+  let s := as_str (arg a 4) in
+  VL [vstrs (header_of hl (split_records (delim_of read0) s));
+      VL (map vitem (filter_listing read0 (as_bool (arg a 1)) hl (as_nat (arg a 3)) s))].
+
+(* 609 model: [bufsz, slabsz, chunk_size, read0, hl, tail, [[sync, stream, cuts, news]...]] -> [[[index, text]...] per load] *)
+Definition as_load (v : val) : load :=
+  mkL (as_bool (arg v 0)) (as_str (arg v 1)) (as_nats (arg v 2)) (as_nats (arg v 3)).
+Definition vviews (vs : list (list item)) : val := VL (map (fun v => VL (map vitem v)) vs).
+Definition d_session (a : val) : val :=
+  match run_session (as_nat (arg a 0)) (as_nat (arg a 1)) (as_nat (arg a 2)) (as_bool (arg a 3))
+                    (as_nat (arg a 4)) (as_nat (arg a 5)) cinit (map as_load (as_list (arg a 6))) with
+  | Ok vs => vviews vs
+  | Err _ => verr
+  end.
+
+(* 610 spec: [read0, hl, tail, [stream...]] -> [[[index, text]...] per stream] *)
+Definition d_session_views (a : val) : val :=
+  vviews (session_views (as_bool (arg a 0)) (as_nat (arg a 1)) (as_nat (arg a 2)) (as_strs (arg a 3))).
+
 Definition dispatch_record (op : Z) (a : val) : option val :=
   if op =? 601 then Some (d_feed a)
   else if op =? 602 then Some (d_split a)
@@ -57,4 +91,8 @@ Definition dispatch_record (op : Z) (a : val) : option val :=
   else if op =? 604 then Some (d_pipeline a)
   else if op =? 605 then Some (d_searchable a)
   else if op =? 606 then Some (d_keep_tail a)
+  else if op =? 607 then Some (d_filter_run a)
+  else if op =? 608 then Some (d_filter_listing a)
+  else if op =? 609 then Some (d_session a)
+  else if op =? 610 then Some (d_session_views a)
   else None.
